@@ -7,7 +7,18 @@ from vf import q, qlist, clist, cbool, cnat, frac, fr_json
 
 ID = 'C14'
 COQ_DIR = 'C14'
-COQ_HEADER = 'From V Require Import Common.Num C14.Model.\nOpen Scope Q_scope.'
+COQ_HEADER = 'From V Require Import Common.Num C14.Model C14.ModelPkg.\nOpen Scope Q_scope.'
+MODEL_FILES = ('Model.v', 'Sprog.v', 'Gen_Solvers.v', 'ModelPkg.v')
+
+def translate():
+    """tie T: regenerate coq/C14/Gen_Solvers.v (control-flow skeletons of the four Mixture temperature solvers) from the
+    current mixture.py; Props.v proves that the generated skeletons leave _free_energy_args empty on every exit"""
+    import importlib.util, os
+    from vf import VERIF, REPO
+    spec = importlib.util.spec_from_file_location('C14_solvers', os.path.join(VERIF, 'tr', 'C14_solvers.py'))
+    m = importlib.util.module_from_spec(spec)
+    spec.loader.exec_module(m)
+    return m.generate(REPO)
 RULE = ('histories of 8-40 operations over a growing table of related stream objects (1-3 constructed Stream/MultiStream '
         'objects, then proxies, flow proxies, copies, linked streams and phase views created by the history itself): reads of '
         'H, h, S, C, Cn, V, kappa, mu, sigma, epsilon, Hvap interleaved with every public mutator (T, P, H and S assignment, phase, phases, '
@@ -24,6 +35,12 @@ RULE = ('histories of 8-40 operations over a growing table of related stream obj
         'the Coq model; every read value (scalars and vol vectors), every raised exception class, the index of every returned object, and a final '
         'snapshot of every object (class, phases, flows, T, P, memo contents, which objects share memo dict / key / '
         'thermal condition / flow row / indexer) are compared (values to 1e-9 relative, structure exactly). '
+        'a second family (one case in six) runs histories on streams of ONE stateful equation-of-state package -- the real EOSMixture '
+        '(H / S / Cn, eos_args, _load_free_energy_args / _load_xfree_energy_args) and the real Mixture.solve_T_at_HP / xsolve_T_at_HP / '
+        'solve_T_at_SP / xsolve_T_at_SP over a stub equation of state and ideal models valid for 64 <= T <= 2048 K: H / S specifications with '
+        'feasible and infeasible values (the solver raises; Stream retries in the other fluid phase), each followed by composition-only / '
+        'T-only / P-only / phase-only edits and reads on the same and on other streams of the package; the keys of _free_energy_args are '
+        'compared after every operation, the outcome of every solver call (T or exception class) is recorded and given to the model; '
         'non-trivial = at least one read returned a value after a mutation; distinct = distinct case hash')
 ASSUMPTIONS = ['the property-package functions are partial: they may raise (stub: kappa and mu raise RuntimeError at T = 384 K); '
                'the exception reaches the caller, which catches it and continues the history',
@@ -32,8 +49,13 @@ ASSUMPTIONS = ['the property-package functions are partial: they may raise (stub
                'the property-package functions are deterministic functions of (phase, composition, T, P) that respect numeric '
                'equality of their arguments (calc1_ext / calcx_ext); nothing else is assumed about them',
                'float rounding is not modelled: inputs are dyadic so flows, totals and branch decisions are exact; values compared to 1e-9',
-               'the temperature found by the H / S setters (directly or inside mix_from(energy_balance=True)) is an oracle value (any T)']
-TRUSTED = ['the per-chemical (T, P, phase)-keyed molar-volume memo inside VolumetricFlowDict (dictionary_view.py) is C11\'s; '
+               'the temperature found by the H / S setters (directly or inside mix_from(energy_balance=True)) is an oracle value (any T)',
+               'stateful packages: what the numerical part of a T solver does (returns a T or raises) is an oracle; eos_args is total '
+               '(flows of the equation-of-state family are non-negative: with a zero row total it would divide by zero BEFORE the try block '
+               'of the x-solvers, not examined); mix_from(energy_balance=True) and copy_like are not exercised in that family']
+TRUSTED = ['stateful packages: coq/C14/ModelPkg.v hand-written from EOSMixture.H/S/Cn, _load_(x)free_energy_args and the H / S setters; the solver '
+           'skeletons (load / try / finally clear) are regenerated from mixture.py on every run by tr/C14_solvers.py (fail-closed subset)',
+           'the per-chemical (T, P, phase)-keyed molar-volume memo inside VolumetricFlowDict (dictionary_view.py) is C11\'s; '
            'here a volumetric view returns mol * 1000 * V_j(phase, T, P) for the phase container / phase and ThermalCondition it holds',
            'model coq/C14/Model.v is hand-written from thermosteam/_stream.py, _multi_stream.py, indexer.py, _phase.py; tie = correspondence check',
            'operations outside the modelled subset (MultiStream receivers of mix_from/copy_like, cross-package copies, proxy of a '
@@ -58,7 +80,10 @@ ERR = {'AttributeError': 'EOther', 'RuntimeError': 'ERuntime', 'UndefinedPhase':
 IDS = ['A_', 'B_', 'C_']
 
 _env = {}
+_FAM = ['stub']      # which property-package family the harness currently runs: 'stub' (stateless) or 'eos' (stateful)
 def env():
+    if _FAM[0] == 'eos':
+        return env_eos()
     if _env:
         return _env
     import thermosteam as tmo
@@ -116,7 +141,126 @@ def env():
     _env.update(tmo=tmo, thermos=thermos)
     return _env
 
+# ---- stateful property package: the REAL EOSMixture (H / S / Cn, eos_args, _load_(x)free_energy_args) and the REAL
+# Mixture.solve_T_at_HP / xsolve_T_at_HP / solve_T_at_SP / xsolve_T_at_SP, over a stub equation of state and stub ideal models
+_env_eos = {}
+SOLVE_LOG = []
+ERR_EOS = dict(ERR, ZeroDivisionError='EZeroDiv', OverflowError='EOther', FloatingPointError='EOther')
+def env_eos():
+    if _env_eos:
+        return _env_eos
+    import thermosteam as tmo
+    from thermosteam.mixture.mixture import EOSMixture, Mixture
+
+    class StubEOS:
+        """departure terms: dyadic affine function of (property, g/l branch, T, P, zs); Tcs identify the chemicals"""
+        def __init__(self, Tcs=None, Pcs=None, omegas=None, kijs=None, T=None, P=None, zs=None, only_g=False, only_l=False, fugacities=False):
+            self.Tcs = list(Tcs); self.T = T; self.P = P; self.zs = list(zs)
+        def to_TP_zs(self, T, P, zs, only_g=False, only_l=False, fugacities=False):
+            return StubEOS(Tcs=self.Tcs, T=T, P=P, zs=zs)
+        def _dep(self, name, q):
+            return (name + 1.) * (2. * (q + 1) + sum(tc / 64. * z for tc, z in zip(self.Tcs, self.zs)) + self.T / 128. + self.P / 32768.)
+        H_dep_g = property(lambda s: s._dep(0, 0)); H_dep_l = property(lambda s: s._dep(0, 1))
+        S_dep_g = property(lambda s: s._dep(1, 0)); S_dep_l = property(lambda s: s._dep(1, 1))
+        Cn_dep_g = property(lambda s: s._dep(2, 0)); Cn_dep_l = property(lambda s: s._dep(2, 1))
+
+    class Ideal:
+        """ideal-mixture stand-in: valid for 64 <= T <= 2048 K, raises RuntimeError outside (like a heat-capacity model that
+        cannot be extrapolated)"""
+        def __init__(self, name, phased=True): self.name = name; self.phased = phased
+        def __call__(self, *args):
+            if self.phased: phase, mol, T = args[:3]; P = args[3] if len(args) > 3 else None
+            else: phase = None; mol, T = args[:2]; P = args[2] if len(args) > 2 else None
+            if not (64. <= T <= 2048.):
+                raise RuntimeError(f'Failed to extrapolate {NAMES[self.name]} model to T={T} K')
+            z = mol.to_array() if hasattr(mol, 'to_array') else np.asarray(mol, float)
+            return (self.name + 1.) * (3. + (5. * (PH[phase] + 1) if phase is not None else 0.)
+                                       + (1. + (PH[phase] + 1) / 2. if phase is not None else 1.) * float(8. * z[0] + 16. * z[1] + 32. * z[2])
+                                       + T / 4. + P / 16384.)
+
+    Base = EOSMixture.subclass(StubEOS, 'StubEOSMixture')
+    class LoggedMixture(Base):
+        """the solvers are the inherited ones (Mixture.solve_T_at_HP ...); the wrappers only record what each call did"""
+        pkg = 0
+        def _logged(self, f, *a):
+            try:
+                T = f(self, *a)
+            except Exception as ex:
+                SOLVE_LOG.append(['err', type(ex).__name__]); raise
+            SOLVE_LOG.append(['ok', fr_json(frac(T))]); return T
+        def solve_T_at_HP(self, *a): return self._logged(Mixture.solve_T_at_HP, *a)
+        def xsolve_T_at_HP(self, *a): return self._logged(Mixture.xsolve_T_at_HP, *a)
+        def solve_T_at_SP(self, *a): return self._logged(Mixture.solve_T_at_SP, *a)
+        def xsolve_T_at_SP(self, *a): return self._logged(Mixture.xsolve_T_at_SP, *a)
+
+    from thermosteam.base import PhaseTPHandle
+    class StubV:
+        def __init__(self, j, q): self.j = j; self.q = q
+        def __call__(self, T, P=None): return (self.j + 1 + 4 * (self.q + 1)) / 1024. + T / 4194304.
+        def copy(self): return self
+    chems = tmo.Chemicals([tmo.Chemical(n, search_db=False, MW=mw, Hf=0., Cn=64., phase='l', default=True, Tc=tc, Pc=1e6, omega=0.125)
+                           for n, mw, tc in [('A_', 16., 128.), ('B_', 32., 256.), ('C_', 8., 512.)]])
+    chems.compile(skip_checks=True)
+    for j, c in enumerate(chems):
+        object.__setattr__(c, '_V', PhaseTPHandle('V', StubV(j, PH['s']), StubV(j, PH['l']), StubV(j, PH['g'])))
+    def make():
+        mx = LoggedMixture(chems.tuple, chems.tuple, Ideal(2), Ideal(0), Ideal(1), Ideal(5), Ideal(3), Ideal(4),
+                           Ideal(8, False), Ideal(6, False), Ideal(7, False), np.array([16., 32., 8.]))
+        return tmo.Thermo(chems, mixture=mx, skip_checks=True)
+    th = make()
+    ref = make()     # an identical, independently built package: only the oracle's freshly created streams use it
+    _env_eos.update(tmo=tmo, thermos=[th, th, th], reference=[ref, ref, ref])
+    return _env_eos
+
+def set_family(case):
+    _FAM[0] = 'eos' if case.get('kind') == 'eos' else 'stub'
+    e = env()
+    e['tmo'].settings.set_thermo(e['thermos'][0])
+    if _FAM[0] == 'eos':
+        for t in e['thermos'] + e['reference']:
+            t.mixture._free_energy_args.clear()
+        del SOLVE_LOG[:]
+    return e
+
 # ------------------------------------------------------------------ generators
+EOS_FLOWS = [F(0), F(0), F(1), F(1), F(2), F(3), F(1, 2), F(4), F(1, 4), F(8)]
+EOS_H = [0., 1., 64., 100., 150., 200., 250., 300., 400., 600., 1000., -5., 1e7, -1e7]
+EOS_READS = ['H', 'h', 'S', 'C', 'Cn', 'H', 'S', 'V', 'mu', 'sigma']
+
+def gen_eos_new(rng):
+    if rng.random() < 0.65:
+        return ['new', [[float(rng.choice(EOS_FLOWS)) for _ in range(3)]], rng.choice(PHS), rng.choice(TS), rng.choice(PS), 0]
+    phases = rng.choice(PHASE_SETS)
+    return ['new', [[float(rng.choice(EOS_FLOWS)) for _ in range(3)] for _ in phases], phases, rng.choice(TS), rng.choice(PS), 0]
+
+def gen_eos_case(rng):
+    """histories on streams of ONE stateful (equation-of-state) package: energy specifications s.H = v / s.S = v with feasible
+    and infeasible values (the solver raises; Stream retries in the other fluid phase, MultiStream does not), each followed by
+    composition-only / T-only / P-only / phase-only edits and reads of H, h, S, C, Cn on the same stream and on OTHER streams
+    of the package"""
+    ops = [gen_eos_new(rng) for _ in range(rng.randint(1, 3))]
+    for o in ops:
+        o[1][0][rng.randrange(3)] = float(rng.choice([1, 2, 3]))
+    for _ in range(rng.randint(2, 5)):
+        i = rng.randrange(8)
+        if rng.random() < 0.3:
+            ops.append(['read', i, rng.choice(EOS_READS)])
+        ops.append([rng.choice(['setH', 'setH', 'setS']), i, rng.choice(EOS_H)])
+        for _ in range(rng.randint(2, 6)):
+            r = rng.random(); j = rng.choice([i, i, rng.randrange(8)])
+            if r < 0.45: ops.append(['read', j, rng.choice(EOS_READS)])
+            elif r < 0.55: ops.append(['setflow', j, rng.choice(PHS), rng.randrange(3), float(rng.choice(EOS_FLOWS))])
+            elif r < 0.63: ops.append(['setT', j, rng.choice(TS)])
+            elif r < 0.71: ops.append(['setP', j, rng.choice(PS)])
+            elif r < 0.79: ops.append(['setphase', j, rng.choice(PHS)])
+            elif r < 0.84: ops.append(['scale', j, float(rng.choice([2, F(1, 2), 3]))])
+            elif r < 0.88: ops.append(['copy', j])
+            elif r < 0.92: ops.append(['view', j, rng.choice(PHS)])
+            elif r < 0.95: ops.append(['empty', j])
+            elif r < 0.97: ops.append(['reset_cache', j])
+            else: ops.append(gen_eos_new(rng))
+    return {'kind': 'eos', 'ops': ops}
+
 FLOWS = [F(0), F(0), F(1), F(1), F(2), F(3), F(1, 2), F(4), F(-1), F(1, 4), F(8), F(1024), F(1, 1024), F(-2)]
 KS = [F(2), F(1, 2), F(3), F(0), F(-1), F(4), F(1, 4), F(1)]
 TS = [256., 300., 320., 384., 298.15]
@@ -462,7 +606,8 @@ except Exception:
 
 def gen_cases(rng, tier):
     n = 300 if tier == 'quick' else 3000
-    return [gen_scripted(rng) if k % 4 == 0 else gen_history(rng) for k in range(n)]
+    m = 60 if tier == 'quick' else 600
+    return [gen_scripted(rng) if k % 4 == 0 else gen_history(rng) for k in range(n)] + [gen_eos_case(rng) for _ in range(m)]
 
 def search_cases(rng, tier):
     n = 200 if tier == 'quick' else 2000
@@ -592,8 +737,56 @@ def snapshot(objs):
                     'aimol': first_id(imol_ids, imol_ids[n]), 'cls_multi': isinstance(s, env()['tmo'].MultiStream)})
     return out
 
+def solver_out(entry):
+    return ['err', 'EOther'] if entry is None else (entry if entry[0] == 'ok' else ['err', ERR_EOS.get(entry[1], 'EOther')])
+
+def run_impl_eos(case):
+    e = set_family(case)
+    mx = e['thermos'][0].mixture
+    objs, res_ops, obs = [], [], []
+    for op in case['ops']:
+        rop, act = resolve(objs, op)
+        if rop[0] in ('mix', 'copy_like') or (rop[0] == 'mix1' and False):
+            rop = ['nop']
+        if rop[0] == 'nop':
+            res_ops.append(rop); obs.append([['ok'], [PH[k] for k in mx._free_energy_args]])
+            continue
+        del SOLVE_LOG[:]
+        b = None
+        try:
+            r = act()
+        except Exception as ex:
+            name = type(ex).__name__
+            if name not in ERR_EOS:
+                raise
+            b = ['err', ERR_EOS[name]]
+        k = rop[0]
+        if k == 'seths':
+            log = list(SOLVE_LOG) + [None, None]
+            rop = ['pseths', rop[1], op[0] == 'setS', rop[2], solver_out(log[0]), solver_out(log[1])]
+        if b is None:
+            if k == 'read':
+                b = ['val', None if r is None else fr_json(frac(r))]
+            elif k == 'rvol':
+                b = ['vec', [fr_json(frac(x)) for x in r.to_array()]]
+            elif k in ('new', 'proxy', 'flow_proxy', 'copy', 'view'):
+                found = [n for n, x in enumerate(objs) if x is r]
+                if found:
+                    b = ['idx', found[0]]
+                else:
+                    objs.append(r); b = ['idx', len(objs) - 1]
+            else:
+                b = ['ok']
+        obs.append([b, [PH[k] for k in mx._free_energy_args]])
+        res_ops.append(rop)
+    snap = snapshot(objs)
+    return {'ops': res_ops, 'obs': obs, 'final': snap,
+            'class_consistent': all(s['multi'] == s['cls_multi'] for s in snap)}
+
 def run_impl(case):
-    env()
+    if case.get('kind') == 'eos':
+        return run_impl_eos(case)
+    set_family(case)
     objs, res_ops, obs = [], [], []
     for op in case['ops']:
         rop, act = resolve(objs, op)
@@ -682,19 +875,39 @@ def csnap(s):
     return (f'(mksnap {cbool(s["multi"])} {phases} {rows} {q(F(s["T"]))} {q(F(s["P"]))} {memo} {cbool(s["keyset"])} '
             f'{cnat(s["amemo"])} {cnat(s["akey"])} {cnat(s["atc"])} {cnat(s["arow"])} {cnat(s["aimol"])})')
 
+def cres(o):
+    return f'(Ok {q(F(o[1]))})' if o[0] == 'ok' else f'(Err {o[1]})'
+
+def cpop(o):
+    if o[0] == 'pseths':
+        return f'(PSetHS {cnat(o[1])} {cbool(o[2])} {cbool(o[3])} {cres(o[4])} {cres(o[5])})'
+    return f'(PS {cop(o)})'
+
 def coq_case(case, out):
+    if case.get('kind') == 'eos':
+        ops = clist([cpop(o) for o in out['ops']])
+        obs = clist([f'({cobs(b[0])}, {clist(b[1], cnat)})' for b in out['obs']])
+        return (f'(prun_eqb {cbool(SHARED)} {ops} {obs} {clist([csnap(s) for s in out["final"]])} '
+                f'&& {cbool(out["class_consistent"])})')
     ops = clist([cop(o) for o in out['ops']])
     return (f'(run_eqb {cbool(SHARED)} {ops} {clist([cobs(b) for b in out["obs"]])} '
             f'{clist([csnap(s) for s in out["final"]])} && {cbool(out["class_consistent"])})')
 
 def coq_show(case, out):
+    if case.get('kind') == 'eos':
+        ops = clist([cpop(o) for o in out['ops']])
+        return (f'(let (pw, bs) := prun estub_ideal estub_dep {cbool(SHARED)} stub_cvol pw0 {ops} in '
+                f'(bs, map (snap_of (pw_w pw)) (seq O (length (objs (w_st (pw_w pw)))))))')
     ops = clist([cop(o) for o in out['ops']])
     return (f'(let (w, bs) := run stub_calc1 stub_calcx {cbool(SHARED)} stub_cvol w0 {ops} in '
             f'(bs, map (snap_of w) (seq O (length (objs (w_st w))))))')
 
+def plain_obs(case, out):
+    return [b[0] for b in out.get('obs', [])] if case.get('kind') == 'eos' else out.get('obs', [])
+
 def nontrivial(case, out):
     seen_mut = False
-    for o, b in zip(out.get('ops', []), out.get('obs', [])):
+    for o, b in zip(out.get('ops', []), plain_obs(case, out)):
         if o[0] not in ('read', 'rvol', 'new', 'nop') and b[0] == 'ok':
             seen_mut = True
         if ((o[0] == 'read' and b[0] == 'val' and b[1] is not None) or (o[0] == 'rvol' and b[0] == 'vec')) and seen_mut:
@@ -703,8 +916,11 @@ def nontrivial(case, out):
 
 def classify(case, out):
     ks = []
-    for o, b in zip(out.get('ops', []), out.get('obs', [])):
+    if case.get('kind') == 'eos': ks.append('family:eos-package')
+    for o, b in zip(out.get('ops', []), plain_obs(case, out)):
         ks.append(f'op:{o[0]}:{b[0] if b[0] != "err" else b[1]}')
+        if o[0] == 'pseths':
+            ks.append('solver:%s/%s' % (o[4][0], o[5][0]))
     ks.append('objects:%d' % len(out.get('final', [])))
     if any(s['multi'] for s in out.get('final', [])): ks.append('has:multistream')
     if any(s['amemo'] != n for n, s in enumerate(out.get('final', []))): ks.append('has:shared-memo')
@@ -737,7 +953,9 @@ def oracle(case):
     phase(s), T, P and the property package the stream was given: the package it was constructed with or last switched
     to; a phase view has the package of its MultiStream; proxies, copies and flow proxies start with the package of
     their source.  This bookkeeping is done here and does not look at the stream's own `_thermo`."""
-    e = env(); tmo = e['tmo']; thermos = e['thermos']
+    e = set_family(case); tmo = e['tmo']
+    # the reference streams of a stateful package live on an identical, independently built package object
+    thermos = e.get('reference', e['thermos'])
     objs, pkg, parent = [], [], []
     mislinked = set()       # indexers of MultiStreams linked (flows and T/P) to a MultiStream with another phase tuple
     detached = set()        # phase views left behind by link_with / unlink of their MultiStream (listed finding)
@@ -825,6 +1043,8 @@ def oracle(case):
     return None
 
 def finding_key(case, msg):
+    if case.get('kind') == 'eos':
+        return 'C14:eos-package:' + ('stale-read' if 'stale' in msg else msg.split(':')[0])
     if case.get('strict_links'):
         return DETACHED_KEY if any(o[0] == 'view' for o in case['ops']) else ADM_KEY
     has_proxy = any(o[0] == 'proxy' for o in case['ops'])
@@ -833,7 +1053,7 @@ def finding_key(case, msg):
 def shrink(case):
     """greedy removal of operations while the oracle keeps failing"""
     ops = list(case['ops'])
-    if not oracle({'ops': ops}):
+    if case.get('kind') == 'eos' or not oracle({'ops': ops}):
         return case
     changed = True
     while changed:
